@@ -88,3 +88,26 @@ def _sha256(unit):
     return j
 
 JOBS += [_sha256(u) for u in ("init", "update", "final")]
+
+SHA512_MAXLEN = 260
+def _sha512(unit):
+    j = {"name": "sha512_%s" % unit, "props": ["C16", "C09"] if unit == "final" else ["C16"],
+         "functions": {"init": ["SHA512_Init"], "update": ["SHA512_Update"], "final": ["SHA512_Final", "SHA512_Pad", "cpu_to_be64_vect", "cpu_to_be64"]}[unit],
+         "harness": "harness/digest_sha512.c", "defs": ["U_%s=1" % unit, "MAXLEN=%d" % SHA512_MAXLEN, "XV_BZERO_EVENTS=1"],
+         "verif_src": ["models/strings.c"], "replace_calls": ["SHA512_Transform:transform_stub"],
+         "unwind": 130, "mem_gb": 6, "timeout": 1800, "no_native": True,
+         "assumptions": ["A-det: the SHA-512 compression function is a function of (chaining value, block) - modelled by an arbitrary-but-fixed table of chaining values indexed by block number"],
+         "bound": "message length <= %d bytes (so the high 64 bits of the 128-bit length are zero); the bulk loop of Update is closed by a loop contract" % SHA512_MAXLEN}
+    if unit in ("update", "final"):
+        j["cases"] = [("fill%d_%d" % (8 * k, 8 * k + 7), "((off & 127) >> 3) == %d" % k) for k in range(16)]
+        j["tier"] = "thorough"
+    if unit == "update":
+        st = " && ".join("ctx->state[%d] == G_STATE[G_NBLK][%d]" % (k, k) for k in range(8))
+        j["loops"] = [{"function": "_crypt_SHA512_Update", "anchor": "while (len",
+                       "invariant": "G_NBLK <= %d && len <= g_end" % (SHA512_MAXLEN // 128) + " && 128 * G_NBLK + len == g_end && g_end <= G_LEN && src == G_MSG + 128 * G_NBLK && " + st,
+                       "assigns": "src, len, G_NBLK, " + ", ".join("ctx->state[%d]" % k for k in range(8)),
+                       "decreases": "len"}]
+    return j
+
+JOBS += [_sha512(u) for u in ("init", "update", "final")]
+for _j in JOBS[-3:]: _j["wip"] = True
